@@ -2303,6 +2303,129 @@ def e2e_trigger_split(ctx, impl):
             break
 
 
+# ---- format e:<enum> end to end: real DWARF (--auto-args), enumerators and values around 2^31, 2^32, 2^63, negative ones
+E2E_ENUMS = {
+    # name: (bits the compiler gives the type, enumerators)
+    "mode": (32, [("M_READ", 1), ("M_WRITE", 2), ("M_EXEC", 4), ("M_SYNC", 0x80000000)]),
+    "span": (64, [("SPAN_NONE", 0), ("SPAN_1", 1), ("SPAN_MAX31", 0x7fffffff), ("SPAN_U32", 0xffffffff),
+                  ("SPAN_4G", 0x100000000), ("SPAN_TOP", 0x8000000000000000)]),
+    "sgn": (32, [("NEG_BIG", -0x80000000), ("NEG", -3), ("ZERO", 0), ("POS", 5), ("POS_MAX", 0x7fffffff)]),
+    "lsgn": (64, [("LNEG", -5000000000), ("LONE", 1), ("LPOS", 5000000000)]),
+}
+
+
+def c_lit(v):
+    return "(-0x%xL - 1)" % (-v - 1) if v < 0 else "0x%x%s" % (v, "UL" if v >= 1 << 63 else "L" if v >= 1 << 31 else "")
+
+
+def e2e_enum_values(r, name):
+    bits, ens = E2E_ENUMS[name]
+    vals = [v for _, v in ens]
+    flags = [v for v in vals if v > 0]
+    out = list(vals)
+    out += [a | b for a in flags for b in flags if a < b and a & b == 0][:4]
+    lo, hi = (-(1 << (bits - 1)), (1 << bits) - 1)
+    extra = [8, 0x40000000, 0x7ffffffe, 0x80000001, 0xfffffffe, -7, 1 << 32, (1 << 32) + 1, (1 << 63) - 1, (1 << 63) + 2,
+             -(1 << 40), r.getrandbits(bits), r.getrandbits(bits)]
+    out += [v for v in extra if lo <= v <= hi and (min(vals) < 0 or v >= 0) and (bits == 64 or min(vals) >= 0 or v < (1 << 31))]
+    return out
+
+
+def e2e_enum(ctx, impl):
+    """enum arguments and return values (format e:<enum>, specs and tables from DWARF through --auto-args): the text
+    replay and dump show must be the model's text for the recorded value and stand for the value passed"""
+    r = ctx.rng
+    d = os.path.join(ctx.scratch, "e2e-enum")
+    shutil.rmtree(d, ignore_errors=True)
+    os.makedirs(d)
+    src = ["#include <stdio.h>"]
+    calls, exp = [], []                       # exp: (function, enum, value passed, is return value)
+    for name, (bits, ens) in E2E_ENUMS.items():
+        src.append("enum %s { %s };" % (name, ", ".join("%s = %s" % (n, c_lit(v)) for n, v in ens)))
+        vals = e2e_enum_values(r, name)
+        src.append("static const enum %s tab_%s[] = { %s };" % (name, name, ", ".join("(enum %s)%s" % (name, c_lit(v)) for v in vals)))
+        src.append("static int idx_%s;" % name)
+        src.append("__attribute__((noinline)) long set_%s(enum %s v) { asm volatile(\"\" ::: \"memory\"); return (long)v != 77; }" % (name, name))
+        src.append("__attribute__((noinline)) enum %s get_%s(void) { asm volatile(\"\" ::: \"memory\"); return tab_%s[idx_%s++]; }"
+                   % (name, name, name, name))
+        for v in vals:
+            calls.append("  sum += set_%s((enum %s)%s);" % (name, name, c_lit(v)))
+            exp.append(("set_" + name, name, v, False))
+        for v in vals:
+            calls.append("  sum += (long)get_%s() != 77;" % name)
+            exp.append(("get_" + name, name, v, True))
+    src += ["int main(void)", "{", "  long sum = 0;"] + calls + ['  printf("sum %ld\\n", sum);', "  return 0;", "}"]
+    text = "\n".join(src) + "\n"
+    open(os.path.join(d, "e.c"), "w").write(text)
+    exe = os.path.join(d, "e")
+    q = subprocess.run(["gcc", "-pg", "-g", "-O0", "-o", exe, os.path.join(d, "e.c")], capture_output=True, text=True, timeout=120)
+    if q.returncode != 0:
+        raise RuntimeError("enum program does not compile: " + q.stderr[-800:])
+    uft = os.path.join(impl.objdir, "uftrace")
+    data = os.path.join(d, "data")
+    p = subprocess.run(["timeout", "60", uft, "record", "--no-pager", "--no-event", "--no-libcall", "-a",
+                        "--libmcount-path=" + impl.objdir, "-d", data, exe], capture_output=True, timeout=90, cwd=d)
+    rp = subprocess.run(["timeout", "60", uft, "replay", "--no-pager", "-f", "none", "--no-comment", "-d", data],
+                        capture_output=True, timeout=90)
+    dp = subprocess.run(["timeout", "60", uft, "dump", "--no-pager", "-d", data], capture_output=True, timeout=90)
+    lines = [l.strip() for l in rp.stdout.decode("latin-1").split("\n") if re.match(r"\s*[sg]et_(mode|span|sgn|lsgn)\(", l)]
+    dl = re.findall(r"\n  args\[0\] enum (\w+): (.*) \((-?\d+)\)\n", dp.stdout.decode("latin-1"))
+    problems, cases, soft = [], [], []
+    if p.returncode != 0 or b"sum " not in p.stdout or rp.returncode != 0 or dp.returncode != 0 or len(lines) != len(exp):
+        problems.append("record / replay / dump failed or replay shows %d of the %d calls (record rc=%d %r)"
+                        % (len(lines), len(exp), p.returncode, p.stderr[-200:]))
+    else:
+        sets = [e for e in exp if not e[3]]
+        if len(dl) != len(sets):
+            problems.append("dump shows %d enum arguments for %d calls" % (len(dl), len(sets)))
+        for i, (fn, en, v, isret) in enumerate(exp):
+            bits, ens = E2E_ENUMS[en]
+            rec = v % (1 << bits)             # what the register holds: the value at the width of the type, zero-extended
+            m = re.match(r"%s\((.*)\) = (.*);$" % fn, lines[i])
+            if not m:
+                problems.append("replay line %r is not a call of %s with a return value" % (lines[i], fn))
+                break
+            cases.append((en, rec, m.group(2) if isret else m.group(1), "replay: " + lines[i], v))
+        for (fn, en, v, _), (den, dtxt, dnum) in zip(sets, dl):
+            bits, ens = E2E_ENUMS[en]
+            rec = v % (1 << bits)
+            srec = rec - (1 << 64) if rec >= 1 << 63 else rec
+            if den != en or int(dnum) != srec:
+                if not soft:
+                    soft.append("dump shows enum %s %s (%s) for %s(%s = %d)" % (den, dtxt, dnum, fn, en, v))
+                continue
+            cases.append((en, rec, dtxt, "dump: enum %s: %s (%s)" % (den, dtxt, dnum), v))
+    bad = []
+    if cases and not problems:
+        def table(en):
+            # as parse_enum_string keeps it: values as C long, largest first
+            sl = [(n, v - (1 << 64) if v >= 1 << 63 else v) for n, v in E2E_ENUMS[en][1]]
+            return "[%s]" % "; ".join("(%s, (%d)%%Z)" % (nlist(n.encode()), v) for n, v in sorted(sl, key=lambda x: -x[1]))
+        defs = "\n".join("Definition tab_%s : etable := %s." % (en, table(en)) for en in E2E_ENUMS)
+        defs += "\nDefinition ecases : list (etable * N * list N) := [\n%s\n].\n" % ";\n".join(
+            "(tab_%s, %s, %s)" % (en, num(rec), nlist(txt.encode("latin-1"))) for en, rec, txt, _, _ in cases)
+        res = coq.run_cases(ctx, "e2e_enum", PRE.replace("NArith ZArith", "NArith ZArith") , defs, [
+            ("mismatch", "bad_indices enum_agrees ecases 0"), ("bad", "bad_indices enum_ok ecases 0")])
+        if res:
+            bad = sorted(set(coq.parse_nat_list(res["bad"])) | set(coq.parse_nat_list(res["mismatch"])))
+    for en, (bits, ens) in E2E_ENUMS.items():
+        ctx.case(key=("e2e-enum", en), tags=["e2e:enum:" + en] + (["enum:negative"] if min(v for _, v in ens) < 0 else [])
+                 + (["enum:64-bit"] if bits == 64 else []))
+    return text, problems + soft, [(cases[i][3], cases[i][4], cases[i][0]) for i in bad]
+
+
+def e2e_enum_judge(ctx, impl):
+    text, problems, bad = e2e_enum(ctx, impl)
+    for pr in problems[:1]:
+        ctx.violation("C09 violated end to end (enum arguments / return values): " + pr,
+                      {"mode": "e2e-enum", "program": text}, True)
+    if bad:
+        ctx.violation("C09 violated end to end (enum arguments / return values): the text shown for an enum value is not "
+                      "the enumerators / number that stand for the value passed: %s" % "; ".join(
+                          "%s for (enum %s)%d" % (shown, en, v) for shown, v, en in bad[:4]),
+                      {"mode": "e2e-enum", "program": text, "wrong": [list(b) for b in bad[:20]]}, True)
+
+
 E2E_WITNESSES = [
     ("autoargs-complex",
      {"name": "g1", "types": ["double _Complex", "const char *", "signed char"], "rtype": "void",
@@ -2683,6 +2806,7 @@ def run(ctx):
     e2e_pointers(ctx, impl)
     e2e_abandoned(ctx, impl)
     e2e_trigger_split(ctx, impl)
+    e2e_enum_judge(ctx, impl)
     found = e2e(ctx, impl)
     defect_witnesses(ctx, impl, found)
 
